@@ -33,7 +33,9 @@ impl Point {
     }
 
     pub fn len(&self) -> f64 {
-        self.slen().sqrt()
+        // hypot, not sqrt(x*x + y*y): the squares of coordinates below 1e-154 are subnormal or zero, and the length of such
+        // a vector came out wrong by up to a factor sqrt(2) (or as 0), which is what normalising by it relies on
+        self.x.hypot(self.y)
     }
 
     pub fn dp(&self, p: &Point) -> f64 {
